@@ -536,9 +536,21 @@ class UnionProvider(LoaderProvider, DumperProvider):
 
         return self._produce_dumper(dumper_type_dispatcher)
 
+    def _dispatch_dumper(self, dumper_type_dispatcher: ClassDispatcher[Any, Dumper], tp: type) -> Dumper:
+        try:
+            return dumper_type_dispatcher.dispatch(tp)
+        except KeyError:
+            # abstract union cases (Sequence, Mapping...) are not a part of `.mro()` of their virtual subclasses
+            for cls, dumper in dumper_type_dispatcher.items():
+                if is_subclass_soft(tp, cls):
+                    return dumper
+            raise
+
     def _produce_dumper(self, dumper_type_dispatcher: ClassDispatcher[Any, Dumper]) -> Dumper:
+        dispatch_dumper = self._dispatch_dumper
+
         def union_dumper(data):
-            return dumper_type_dispatcher.dispatch(type(data))(data)
+            return dispatch_dumper(dumper_type_dispatcher, type(data))(data)
 
         return union_dumper
 
@@ -548,10 +560,12 @@ class UnionProvider(LoaderProvider, DumperProvider):
         literal_dumper: Dumper,
         literal_cases: Sequence[Any],
     ) -> Dumper:
+        dispatch_dumper = self._dispatch_dumper
+
         def union_dumper_with_literal(data):
             if data in literal_cases:
                 return literal_dumper(data)
-            return dumper_type_dispatcher.dispatch(type(data))(data)
+            return dispatch_dumper(dumper_type_dispatcher, type(data))(data)
 
         return union_dumper_with_literal
 
